@@ -480,7 +480,8 @@ func (p *Plugin) degradeCalculate(node *corev1.Node, message string) []framework
 
 func (p *Plugin) prepareForNodeResourceTopology(strategy *configuration.ColocationStrategy, node *corev1.Node,
 	nr *framework.NodeResource) error {
-	if len(nr.ZoneResources) <= 0 {
+	// when the batch resources are reset (e.g. the node metric is stale) go on, so that the zone amounts are reset as well
+	if len(nr.ZoneResources) <= 0 && !nr.Resets[extension.BatchCPU] && !nr.Resets[extension.BatchMemory] {
 		klog.V(6).Infof("skip prepare batch resources for NRT, Zone resources is not calculated, node %s", node.Name)
 		return nil
 	}
